@@ -41,6 +41,7 @@ class RunResult:
 
 _KINDS = [
     ("postcondition not satisfied", "postcondition"),
+    ("unable to prove post-condition of closure", "postcondition"),
     ("precondition not satisfied", "precondition"),
     ("assertion failed", "assertion"),
     ("possible arithmetic underflow/overflow", "overflow"),
